@@ -116,6 +116,13 @@ CHECKS.update({
    note="Trusted: the Python rule/regex reference; PrettyFormatter output matched structurally; accept-set {original, interposed} when a foreign handler was installed between two installs."),
 })
 
+CHECKS.update({
+ "C20": dict(engine="seqx", level=EX, design="§7 C20, §8",
+   technique="bounded-exhaustive differential exploration: the explorer spaces of C01 C12 C14 C15 C16 C17 are executed by two builds of each explorer (library sources vs the single header alone) and every case's observed output is compared (digests, first differing case on mismatch); auxiliary exact step, not model checking and reported separately: the project's generator is run on a scratch copy and compared byte for byte",
+   text="Every case of six bounded explorer spaces (pipeline trees, pattern x value products, signature and rule token strings, rule lists, filter/counter message sequences, sorted-pipeline call sequences) is executed against the library built from src/ and against /repo/qtlogger.h alone; all observed outputs, case counts and oracle verdicts must be equal. Decides the property's behavioural consequence inside those spaces; the byte-for-byte clause is decided by re-running the generator (exact comparison, outside the model-checking family, flagged as such in the evidence).",
+   note="Trusted: g++ builds of both distributions with the same flags; clock/thread dependent outputs excluded from digests. The byte comparison cannot raise a false alarm and is kept because a behavioural comparison cannot see drift in unreached code."),
+})
+
 PENDING = {}
 
 def main():
